@@ -122,6 +122,9 @@ func (s *session) WritePkg(pkg interface{}, _ time.Duration) (int, int, error) {
 	h := s.h
 	h.mu.Lock()
 	if req, ok := msg.Body.(message.GlobalBeginRequest); ok {
+		if i := strings.LastIndex(req.TransactionName, ":"); i >= 0 {
+			req.TransactionName = req.TransactionName[i+1:] // the routing prefix used in the two-connection scenario
+		}
 		if h.sc.FailWrite > 0 && req.TransactionName == fmt.Sprintf("caller-%d", h.sc.FailWrite-1) {
 			sched := h.sched
 			h.mu.Unlock()
@@ -360,7 +363,13 @@ func runOne(sc Scenario, prefix []int) execResult {
 		i := i
 		h.callerTID[i] = i
 		s.Go(fmt.Sprintf("caller-%d", i), func() {
-			o, _ := begin(fmt.Sprintf("caller-%d", i))
+			name := fmt.Sprintf("caller-%d", i)
+			if sc.Close {
+				// under the XID policy a name of the form ip:port:id is routed to that address while it is open: the callers use
+				// the connection that is going to be lost, deterministically (the random fallback is time-seeded)
+				name = "10.0.0.1:8091:" + name
+			}
+			o, _ := begin(name)
 			h.mu.Lock()
 			h.res[i] = o
 			h.mu.Unlock()
@@ -531,7 +540,7 @@ func explore(r *rep.Run, sc Scenario, shard, nshards int) {
 	ex.Check = func(vsched.Result) {}
 	ex.Explore(nil)
 	r.Count("executions/"+sc.Name, int64(ex.Executions))
-	r.Count("max_schedule_length/"+sc.Name, int64(maxSteps))
+	r.Extra[fmt.Sprintf("maxlen/%s/shard%d", sc.Name, shard)] = maxSteps
 	if ex.Capped {
 		r.Exhaustive = false
 		r.Count("capped/"+sc.Name, 1)
@@ -622,6 +631,20 @@ func Run(r *rep.Run) {
 		}
 		for name, m := range union {
 			r.Count("distinct_outcomes/"+name, int64(len(m)))
+		}
+		maxlen := map[string]int64{}
+		for k, v := range r.Extra {
+			if !strings.HasPrefix(k, "maxlen/") {
+				continue
+			}
+			name := strings.Split(k, "/")[1]
+			if f, ok := v.(float64); ok && int64(f) > maxlen[name] {
+				maxlen[name] = int64(f)
+			}
+			delete(r.Extra, k)
+		}
+		for name, n := range maxlen {
+			r.Count("max_schedule_length/"+name, n)
 		}
 		return
 	}
